@@ -250,8 +250,8 @@ def run(ctx):
             cases.append(("adwin", cfg, list(xs), {"stream": list(xs)}))
             ctx.count("exhaustive-short")
     # (b) random configurations x piecewise stationary dyadic streams
-    n_rand = 640 if ctx.quick else 1500
-    max_len = 400 if ctx.quick else 4000
+    n_rand = 640 if ctx.quick else 1000
+    max_len = 400 if ctx.quick else 3000
     for k in range(n_rand):
         r = np.random.default_rng([ctx.seed, 1, k])
         cfg = gen_cfg(r)
